@@ -147,6 +147,9 @@ pub fn common_stats(plan: &Plan, rec: &RunRec, s: &mut Stats) {
     s.add("fault.clock_jump", rec.clock_jumps);
     s.inc(&format!("end.{:?}", rec.end));
     s.inc(&format!("machine.cost_ns.{}", plan.cost_ns));
+    if plan.switch_ns > 0 {
+        s.inc(&format!("fault.switch_latency_ns.{}", plan.switch_ns));
+    }
     s.inc(&format!("policy.{}", super::gen::policy_name(&plan.policy)));
     let preempts: &[super::kernel::Preempt] = if plan.policy.is_some() { &rec.fired } else { &plan.preempts };
     for p in preempts {
@@ -205,6 +208,7 @@ pub struct GoView<'a> {
     /// All positions of the reference game up to that point.
     pub game: Vec<Pos>,
     pub deliver_clock: u64,
+    pub deliver_stalled: u64,
     pub deliver_step: u64,
     /// Had every earlier go's bestmove been emitted when this go was delivered?
     pub earlier_all_answered: bool,
@@ -229,6 +233,7 @@ pub fn go_views(h: &Hist) -> Vec<GoView<'_>> {
                 pos: if rs.known { Some(rs.current().clone()) } else { None },
                 game: rs.game.clone(),
                 deliver_clock: l.clock,
+                deliver_stalled: l.stalled,
                 deliver_step: l.step,
                 earlier_all_answered,
             });
